@@ -114,6 +114,9 @@ def classify_path_operand(P, fn, op, depth=0):
             return {"other:format-without-base"}
         base = classify_path_operand(P, fn, fm[0][1], depth + 1)
         rest = fm[1:]
+        if len(rest) == 1 and rest[0][0] == "lit" and b"/" not in rest[0][1] and b".." not in rest[0][1] and rest[0][1]:
+            # `<base><suffix>`: a neighbour of base in the same directory
+            return {b + "~" for b in base}
         if not rest or rest[0][0] != "lit" or not rest[0][1].startswith(b"/"):
             return {"other:format-not-under-base"}
         for p in rest:
@@ -158,7 +161,7 @@ def c09_r1(ctx):
                 continue
             ctx.inst("%s arg%d in %s" % (c.name, ai + 1, f.id), c.where)
             cls = classify_path_operand(ctx.P, f, a)
-            bad = [x for x in cls if x.startswith("other:")]
+            bad = [x for x in cls if x.startswith("other:") or (x.endswith("~") and x.startswith("fileinfo"))]
             if bad or not cls:
                 ctx.viol((f.id, "foreign-path", c.name, ai + 1), "%s is applied to a path that is neither a declared target nor inside ruler's directory (derives from %s)" % (c.name, sorted(cls)), c.where)
             else:
@@ -605,8 +608,9 @@ def c07_r4(ctx):
             so_all = f.origins_of_operand(c.args[2])
             so = {s for s in so_all if s[-1] == ("field", "file_state")}
             # a refreshed state stored back into the same place is the same FileInfo's state
-            extra_ok = all(is_call(s) and ctx.P.local_targets(f.call_at[s[0][2]]) and ctx.P.local_targets(f.call_at[s[0][2]])[0] in hashers
-                           and s[1:] == (("variant", "Ok"), ("field", 0)) for s in so_all - so)
+            extra_ok = all((is_call(s) and ctx.P.local_targets(f.call_at[s[0][2]]) and ctx.P.local_targets(f.call_at[s[0][2]])[0] in hashers
+                            and s[1:] == (("variant", "Ok"), ("field", 0))) or
+                           (s[0][0] == "agg" and s[0][4] == "blob::FileState::FileState" and len(s) == 1) for s in so_all - so)
             if po and so and extra_ok and all(p[-1] == ("field", "path") for p in po) \
                     and {p[:-1] for p in po} == {s[:-1] for s in so}:
                 ctx.ok()
@@ -675,6 +679,14 @@ def c08_r2(ctx):
             else:
                 ctx.viol((f.id, "rename-into-cache"), "a rename into the cache whose entry name is not the ticket handed in with the file", c.where)
             continue
+        if cls and all(x.startswith(("rulerdir:history::History/+", "rulerdir:current::CurrentFileStates")) and not x.endswith("~") for x in cls):
+            # ruler's own state file, replaced by its successor (C11.R4 checks the protocol)
+            src_cls = classify_path_operand(ctx.P, f, c.args[1])
+            if src_cls == {x + "~" for x in cls}:
+                ctx.ok()
+            else:
+                ctx.viol((f.id, "state-file-replaced-by-foreign"), "a state file is replaced by something other than its freshly written temporary neighbour (source %s)" % sorted(src_cls), c.where)
+            continue
         ok, chain = vacant(ctx.P, f, c.bb, f.origins_of_operand(c.args[2]))
         if ok:
             ctx.ok()
@@ -716,6 +728,9 @@ def c08_r3(ctx):
         cls = classify_path_operand(ctx.P, f, c.args[1])
         if cls and all(x.startswith("rulerdir:history::History/+") or x.startswith("rulerdir:current::CurrentFileStates") or x.startswith("dirparam/+") for x in cls):
             ctx.ok()
+            continue
+        if cls and all(x.startswith("rulerdir:") and x.endswith("~") for x in cls):
+            ctx.ok()    # temporary neighbour of a state file
             continue
         if cls and all(x.startswith("rulerdir:cache") for x in cls):
             ctx.viol((f.id, "create-in-cache"), "create_file on a cache path", c.where)
@@ -966,6 +981,7 @@ def c11_r4(ctx):
         if not cls or not all(x.startswith("rulerdir:history") or x.startswith("rulerdir:current") for x in cls):
             continue
         ctx.inst("state file written in %s" % f.id, c.where)
+        temp = all(x.endswith("~") for x in cls)
         # is there a rename in f (or its callers, for helper functions) from this path onto another, after the write?
         ok = False
         rn = sys_calls(f, "rename")
@@ -975,7 +991,8 @@ def c11_r4(ctx):
                 w_ok = set()
                 for x in w:
                     w_ok |= f.edges_of_call_variant(x, "Ok")
-                if w and f.dominated_by_edges(r.bb, w_ok) and f.origins_of_operand(r.args[2]) != f.origins_of_operand(r.args[1]):
+                dst = classify_path_operand(ctx.P, f, r.args[2])
+                if w and f.dominated_by_edges(r.bb, w_ok) and temp and {x + "~" for x in dst} == cls:
                     ok = True
         if not ok:
             # helper: the caller may create a temp name and rename afterwards
@@ -984,7 +1001,8 @@ def c11_r4(ctx):
                 for r in sys_calls(g, "rename"):
                     if g.dominated_by_edges(r.bb, g.edges_of_call_variant(cs, "Ok")):
                         po = [a for a in cs.args if ty_is_path(g, a)]
-                        if po and g.origins_of_operand(r.args[1]) == g.origins_of_operand(po[0]):
+                        dst = classify_path_operand(ctx.P, g, r.args[2])
+                        if po and g.origins_of_operand(r.args[1]) == g.origins_of_operand(po[0]) and temp and {x + "~" for x in dst} == cls:
                             ok = True
         if ok:
             ctx.ok()
